@@ -779,6 +779,26 @@ def simplify_slices(e):
             else:
                 rng = E('aggr', 'RangeFrom::RangeFrom', [c.args[1]], c={'akind': 'adt', 'adt': 'core::ops::range::RangeFrom', 'variant': 'RangeFrom'})
             return simplify_slices(E('call', 'core::slice::index::<impl std::ops::Index<I> for [T]>::index', [c.args[0], rng], site=c.site, ty='&[u8]'))
+    # the length of x[a..] is len(x) - a, of x[a..b] is b - a, of x[..b] is b — written as the checked subtraction the compiler
+    # emits, so that every later analysis sees the expression a hand-written `x.len() - a` has
+    if ((e.k == 'call' and last(e.name or '') == 'len') or (e.k == 'unop' and e.name == 'PtrMetadata')) and len(e.args) == 1:
+        sl = strip(e.args[0])
+        if sl.k == 'call' and last(sl.name or '') in ('index', 'index_mut') and len(sl.args) == 2:
+            r = strip(sl.args[1])
+            def sub(a, b):
+                ca, cb = const_int(a), const_int(b)
+                if ca is not None and cb is not None and ca >= cb:
+                    return _mk_int(ca - cb)
+                if cb == 0:
+                    return a
+                return E('field', '0', [E('binop', 'SubWithOverflow', [a, b], ty='(usize, bool)')], c={'fidx': 0}, ty='usize')
+            if r.k == 'aggr' and r.name == 'RangeFrom::RangeFrom' and r.args:
+                whole = E(e.k, e.name, [sl.args[0]], site=e.site, ty=e.ty, c=e.c)
+                return sub(simplify_slices(whole), r.args[0])
+            if r.k == 'aggr' and r.name == 'Range::Range' and len(r.args) == 2:
+                return sub(r.args[1], r.args[0])
+            if r.k == 'aggr' and r.name == 'RangeTo::RangeTo' and r.args:
+                return r.args[0]
     if e.k == 'call' and last(e.name or '') in ('index', 'index_mut') and len(e.args) == 2:
         outer = strip(e.args[1])
         inner = strip(e.args[0])
